@@ -7,7 +7,7 @@ from hypothesis import strategies as st
 
 from vp import core
 from vp.gen import queries
-from vp.oracle import engines
+from vp.oracle import contradiction, engines
 
 ID = "C11"
 LEVEL = "exploration"
@@ -97,6 +97,8 @@ EXCLUDE: dict = {
     "C11-right-join-on-true-to-cross": lambda sql, feats: "RIGHT JOIN" in sql and " ON 1 = 1" in sql,
     "C11-cross-join-limit-1-eliminated": lambda sql, feats: "CROSS JOIN" in sql and " LIMIT 1)" in sql,
     # planner sorts first and then applies DISTINCT as an aggregation that re-sorts by the projected values
+    # execute() optimizes first; simplify folds a contradictory pair on one column to FALSE although it is NULL on a NULL operand
+    "C11-contradiction-to-false": lambda sql, feats: contradiction.in_region(sql),
     "C11-distinct-discards-order": lambda sql, feats: "distinct" in feats and ("order-by" in feats or "nested-limit" in feats),
 }
 
